@@ -75,9 +75,12 @@ func (c *checkSchema) checkType(name string, typ schema.Type, ss map[string]sche
 			return
 		}
 
-		// Return an error with the full set of bytes of the root schema.
+		// An error found at a lexeme knows its file: a property inherited with
+		// allOf lies in the file of the type it comes from, not in this type's.
 		if documentError, ok := r.(errors.DocumentError); ok {
-			documentError.SetFile(typ.RootFile())
+			if documentError.Filename() == "" {
+				documentError.SetFile(typ.RootFile())
+			}
 			documentError.SetIncorrectUserType(name)
 			panic(documentError)
 		}
